@@ -288,6 +288,34 @@ Fixpoint run (s : state) (h : list op) : list (out * state) :=
 Definition final (s : state) (h : list op) : state := fold_left (fun s o => fst (step s o)) h s.
 Definition outs (s : state) (h : list op) : list out := map fst (run s h).
 
+(* ---- the uniformity hypothesis of the theorems, as an executable check ---- *)
+(* a tree of chapter names *)
+Inductive shape := Sh (sub : list (name * shape)).
+
+Fixpoint nodupb (l : list name) : bool :=
+  match l with [] => true | x :: r => negb (existsb (Z.eqb x) r) && nodupb r end.
+Definition is_dict (v : value) : bool := match v with VDict _ => true | VInt _ => false end.
+
+(* record( **infos ) feeds exactly the chapters of the tree s (see Proofs: has_shape); fuel as in lb_record *)
+Fixpoint has_shapeb (fuel : nat) (infos : dict) (s : shape) : bool :=
+  match fuel with
+  | O => false
+  | S f =>
+    let 'Sh sub := s in
+    nodupb (map fst infos) && nodupb (map fst sub) &&
+    forallb (fun k => existsb (fun kv => (fst kv =? k) && is_dict (snd kv)) infos) (map fst sub) &&
+    forallb (fun kv => match snd kv with
+                       | VInt _ => true
+                       | VDict d => match lookup (fst kv) sub with
+                                    | Some sk => has_shapeb f (dict_update d (inject (scalars infos))) sk
+                                    | None => false
+                                    end
+                       end) infos
+  end.
+
+Definition uniformb (s : shape) (h : list op) : bool :=
+  forallb (fun o => match o with ORecord infos => has_shapeb (S (ddepth infos)) infos s | _ => true end) h.
+
 (* ---- Statistics / MultiStatistics ---- *)
 Section Stats.
   Context {A B C : Type}.
